@@ -5,3 +5,4 @@ import RB.Proofs.C15
 import RB.Model.Termination
 import RB.Model.Sched
 import RB.Util.SchedDriver
+import RB.Proofs.C04
